@@ -11,6 +11,8 @@ R3 join before use of handler-written state (caller role), with the no-pool edge
 R4 ordered dispatch at the writer; one result thread per handler.
 R5 bounded worker creation.   R6 exactly one delivery per result.
 R7 thread exits.              R8 queue tail discipline.
+R10 completion route: a worker reports an ordered job by signalling its own condition variable and an unordered job
+    by queueing itself - the field it decides that by holds, for every job, what THIS dispatch asked for.
 R9 no nested use of a pool from inside a pool job: code reachable from a work function or a result
    callback never gives a (non-NULL) pool to a writer or sorter it creates - a job that waits for a
    slot of the pool it occupies hangs as soon as all slots hold such jobs.
@@ -45,6 +47,7 @@ def run(ctx, res):
     r3_join(ctx, res)
     r4_r8(ctx, res)
     r9_nested(ctx, res)
+    r10_route(ctx, res)
 
 
 # ---------------------------------------------------------------------------------------------
@@ -874,3 +877,105 @@ def r9_nested(ctx, res):
     pos = ctx.pos_example("c13_nested_pool.c")
     if len(_pool_handed_on(pos)) != 2:
         raise BrokenAnalysis("nested-pool matcher reports %d of the 2 constructs of its positive example" % len(_pool_handed_on(pos)))
+
+
+# ---------------------------------------------------------------------------------------------
+def r10_route(ctx, res):
+    """R10: the field of `struct thread` the worker reads to choose between its two ways of reporting completion
+    (signal its own condition variable: ordered; append itself to a result queue: unordered) must, for every job, hold
+    what the dispatch of THAT job asked for.  Decided by value on the paths of threadpool_dispatch and thread_worker:
+    an unordered dispatch stores the handler's queue there; an ordered dispatch stores NULL there - or stores nothing,
+    which is right only if idle threads always have the field NULL (created zeroed, and the worker clears it after every
+    job).  A field left as the previous job set it sends an ordered job's completion to a queue of an earlier user
+    (possibly destroyed) without the wake-up the result thread waits for."""
+    prog, cg = ctx.prog, ctx.cg
+    res.floor("C13.R10", 3)
+    tw = prog.need("thread_worker", TP)
+    td = prog.need("threadpool_dispatch", TP)
+    evw = APE.run(prog, cg, tw, bound=APE.BOUND, inline=("*static",))
+    # the route field: the thread field whose value is the queue the worker appends itself to
+    fields = set()
+    jobpaths = []
+    for p in evw.paths:
+        evs = [e for e in p.events if e.kind != "branch"]
+        cbi = [i for i, e in enumerate(evs) if e.kind == "call" and e.a.startswith("(*")]
+        if not cbi:
+            continue
+        jobpaths.append((p, evs, cbi[0]))
+        env = {}
+        for e in evs:
+            if e.kind != "store":
+                continue
+            a = strip_tags(e.a)
+            m = re.match(r"^\*(.+)->ptail$", a)
+            if m:
+                base = m.group(1)
+                v = env.get(base, base)
+                m2 = re.match(r"^\w+->(\w+)(@\d+)?$", v)
+                if m2:
+                    fields.add(m2.group(1))
+            elif e.b and e.b[0] == "s" and re.match(r"^\w+$", a):
+                env[a] = e.b[1]
+    if len(fields) != 1:
+        res.undecided("C13.R10", "thread_worker: the queue a finished worker appends itself to is not read from one field of the thread (%s)" % sorted(fields))
+        return
+    F = fields.pop()
+    # does the worker clear the field after every job (before it can be dispatched again)?
+    clears = True
+    for p, evs, i in jobpaths:
+        st = [e for e in evs[i:] if e.kind == "store" and re.match(r"^\w+->%s$" % F, strip_tags(e.a))]
+        done = any(e.kind == "store" and strip_tags(e.a).endswith("->running") and e.b == ("c", 0) for e in evs[i:])
+        if not done:
+            continue     # path cut before the job is reported
+        if not st or st[-1].b != ("c", 0):
+            clears = False
+    # are threads created with the field zero?
+    zeroed = False
+    for g in prog.unit_funcs(TP):
+        pcs = [c for c in g.calls("pthread_create") if canon(call_args(c)[2]) == "thread_worker"]
+        if pcs:
+            zeroed = bool(g.calls("calloc") or g.calls("my_calloc")) or any(
+                e.kind == "store" and re.match(r"^\w+->%s$" % F, strip_tags(e.a)) and e.b == ("c", 0)
+                for p in APE.run(prog, cg, g, bound=APE.BOUND).paths for e in p.events)
+    idle_null = clears and zeroed
+    res.check(True, "C13.R10", site(tw, "route-field"), "completion route read from thread.%s; idle threads have it NULL: %s "
+              "(cleared after every job: %s, created zeroed: %s)" % (F, idle_null, clears, zeroed))
+    ordp = [q["name"] for q in td.params if "*" not in q.get("type", "")]
+    evd = APE.run(prog, cg, td, bound=APE.BOUND, inline=("*static",))
+    n = 0
+    for p in evd.paths:
+        if p.end != "exit":
+            continue
+        inc = [e for e in p.events if e.kind == "store" and strip_tags(e.a).endswith("->nthreads")]
+        if not inc:
+            continue
+        qbase = strip_tags(inc[0].a)[:-len("->nthreads")]
+        env = {}
+        for e in p.events:
+            if e.kind == "store" and e.b and e.b[0] == "s" and re.match(r"^\w+$", strip_tags(e.a)):
+                env.setdefault(strip_tags(e.a), e.b[1])
+        qval = env.get(qbase, qbase)
+        # ordered iff the thread is appended to the queue here
+        appended = any(e.kind == "store" and re.match(r"^\*.+->ptail$", strip_tags(e.a)) for e in p.events)
+        st = [e for e in p.events if e.kind == "store" and re.match(r"^\w+->%s$" % F, strip_tags(e.a))]
+        n += 1
+        if appended:
+            good = (st and st[-1].b == ("c", 0)) or (not st and idle_null)
+            res.check(bool(good), "C13.R10", site(td, "ordered-route"),
+                      "an ordered dispatch leaves thread.%s NULL: the worker signals its own condition variable" % F,
+                      "an ordered dispatch (the thread is queued at once and the result thread waits on its condition variable) %s: "
+                      "a worker that last ran an unordered job reports this one by appending itself to that earlier queue without "
+                      "signalling - the result thread waits for ever and the earlier queue may already be destroyed" % (
+                          ("stores %s into thread.%s" % (APE.vstr(st[-1].b), F)) if st else
+                          ("does not set thread.%s, and idle threads do not always have it NULL (cleared after every job: %s, created zeroed: %s)" % (F, clears, zeroed))),
+                      td.loc(st[-1].node if st else td.body), p.describe(td))
+        else:
+            good = st and st[-1].b[0] == "s" and strip_tags(st[-1].b[1]) == strip_tags(qval)
+            res.check(bool(good), "C13.R10", site(td, "unordered-route"),
+                      "an unordered dispatch stores the handler's queue into thread.%s: the worker queues itself there when done" % F,
+                      "an unordered dispatch (the thread is not queued here) %s: the finished worker never reaches the queue whose "
+                      "outstanding-job count was raised - the result thread waits for ever" % (
+                          ("stores %s into thread.%s, not the queue %s" % (APE.vstr(st[-1].b), F, qval)) if st else ("does not set thread.%s" % F)),
+                      td.loc(st[-1].node if st else td.body), p.describe(td))
+    if n < 2:
+        raise BrokenAnalysis("threadpool_dispatch: %d completed dispatch path(s) found, 2 (ordered, unordered) confirmed by hand" % n)
